@@ -103,7 +103,10 @@ func Templated(a int) int { return a + 7 }
 `, "gram/plain.go": fn("gram", "Plain")}},
 		{"two-ignored-generators", map[string]string{"tools/gen_a.go": "//go:build ignore\n\npackage main\n\nfunc helper(a int) int {\n\tif a > 2 {\n\t\treturn a * 5\n\t}\n\treturn a\n}\n\nfunc main() { println(helper(1)) }\n",
 			"tools/gen_b.go": "//go:build ignore\n\npackage main\n\nimport \"os\"\n\nfunc helper(x string) string {\n\tif len(x) > 3 {\n\t\treturn x[:3]\n\t}\n\treturn x + \"!\"\n}\n\nfunc main() { os.Stdout.WriteString(helper(\"abc\")) }\n",
-			"tools/lib.go": fn("tools", "Lib")}},
+			"tools/lib.go":   fn("tools", "Lib")}},
+		{"build-excluded-next-to-portable", map[string]string{"px/go.mod": "module example.com/px\n\ngo 1.21\n", "px/portable.go": fn("px", "Portable"),
+			"px/payload.go":    "//go:build sfwnevertag\n\npackage px\n\nfunc Payload(a int) int {\n\tif a > 3 {\n\t\treturn a * 9\n\t}\n\treturn a\n}\n",
+			"px/drop_plan9.go": "package px\n\nfunc Plan9Only(a int) int {\n\tfor i := 0; i < a; i++ {\n\t\ta += i\n\t}\n\treturn a\n}\n"}},
 		{"generic-multitype-conversion", map[string]string{"conv/conv.go": `package conv
 
 func Bytes[T ~string | ~[]byte](x T) []byte { return []byte(x) }
@@ -156,6 +159,9 @@ type c16Func struct {
 }
 
 // c16Inventory walks the tree independently.
+// c16Excluded: files that build constraints exclude on this platform (filled by c16Inventory).
+var c16Excluded = map[string]bool{}
+
 func c16Inventory(root string) (files []string, funcs []c16Func, unanalysable map[string]string, err error) {
 	unanalysable = map[string]string{}
 	err = filepath.WalkDir(root, func(p string, d os.DirEntry, e error) error {
@@ -190,6 +196,13 @@ func c16Inventory(root string) (files []string, funcs []c16Func, unanalysable ma
 		}
 		if strings.Contains(p, "/bad2/") {
 			unanalysable[p] = "type-error"
+		}
+		// excluded from the build on this platform (a GOOS suffix, a tag nobody sets): it must be
+		// reported with an error or analysed, not skipped or replaced by its siblings' functions
+		// (outside a module the loader analyses an explicitly named file whatever its constraints
+		// say, inside a module it finds no package for it: either way the file is not passed over)
+		if src, rerr := os.ReadFile(p); rerr == nil && (strings.HasSuffix(p, "_plan9.go") || strings.HasPrefix(string(src), "//go:build sfwnevertag")) {
+			c16Excluded[p] = true
 		}
 		ast.Inspect(f, func(nd ast.Node) bool {
 			switch x := nd.(type) {
@@ -345,7 +358,7 @@ func TestVerifC16(t *testing.T) {
 				}
 			}
 			for f := range expect {
-				if _, u := unan[f]; !u && withErr[f] {
+				if _, u := unan[f]; !u && withErr[f] && !c16Excluded[f] {
 					// an analysable file reported with an error: silently accepted only if its package holds an unanalysable sibling
 					sib := false
 					for uf := range unan {
@@ -486,4 +499,3 @@ func TestVerifC16Blank(t *testing.T) {
 		r.Violate("blank-method/check", fmt.Sprintf("`func (t T) _(a int) int { ... }` at m.go:9 has a body but is not fingerprinted (report lists %v)", listed2), nil)
 	}
 }
-
